@@ -113,7 +113,14 @@ fn must_reject_corpus() -> Vec<(ASchema, ADoc)> {
         (schema.clone(), ADoc { ops: vec![op("TypenameOnlyInSpread", vec![fld("named", vec![fld("name", vec![]), ASel::Spread { name: "OnPerson".into() }])])],
             frags: vec![AFrag { name: "OnPerson".into(), on: "Person".into(), sels: vec![ASel::Typename, fld("age", vec![])] }] }),
         (schema.clone(), ADoc { ops: vec![op("TypenameOnlyInInline", vec![fld("things", vec![ASel::Inline { on: "Robot".into(), sub: vec![ASel::Typename, fld("model", vec![])] }])])], frags: vec![] }),
-        (schema, ADoc { ops: vec![op("NoTypename", vec![fld("named", vec![fld("name", vec![])])])], frags: vec![] }),
+        (schema.clone(), ADoc { ops: vec![op("NoTypename", vec![fld("named", vec![fld("name", vec![])])])], frags: vec![] }),
+        // valid GraphQL that the generator refuses today ("The spread … is not valid", a documented limit of the supported
+        // subset): a condition on an ABSTRACT type whose possible types overlap the parent's. Should it ever be accepted, the
+        // fields selected under the condition belong to the response of every runtime type it applies to.
+        (schema.clone(), ADoc { ops: vec![op("InterfaceConditionInUnion", vec![fld("things", vec![ASel::Typename, ASel::Inline { on: "Named".into(), sub: vec![fld("name", vec![])] }, ASel::Inline { on: "Robot".into(), sub: vec![fld("model", vec![])] }])])], frags: vec![] }),
+        (schema.clone(), ADoc { ops: vec![op("InterfaceSpreadInUnion", vec![fld("things", vec![ASel::Typename, ASel::Spread { name: "NamedPart".into() }])])],
+            frags: vec![AFrag { name: "NamedPart".into(), on: "Named".into(), sels: vec![ASel::Typename, fld("name", vec![])] }] }),
+        (schema, ADoc { ops: vec![op("UnionConditionInInterface", vec![fld("named", vec![ASel::Typename, ASel::Inline { on: "Thing".into(), sub: vec![ASel::Typename, ASel::Inline { on: "Person".into(), sub: vec![fld("age", vec![])] }] }])])], frags: vec![] }),
     ]
 }
 
@@ -215,9 +222,14 @@ pub fn build_universe_with(
             extend_implements: from_corpus || rng.chance(50),
             extensions_first: rng.chance(40),
             sdl_builtin_scalars: rng.chance(15),
-            input_defaults: rng.chance(30),
+            input_defaults: rng.chance(50),
+            input_directive_extensions: rng.chance(30),
+            json_response_members: rng.chance(50),
             ..RenderKnobs::default()
         };
+        if knobs.input_defaults {
+            rep.count("schema:input-field-defaults");
+        }
         // a quarter of the random cases read the schema from introspection JSON instead of SDL
         let as_json = !from_corpus && rng.chance(25);
         let sdl = if as_json { serde_json::to_string(&schema.to_json(&RenderKnobs { json_wrapped: rng.chance(50), ..knobs.clone() })).unwrap() } else { schema.to_sdl(&knobs) };
